@@ -40,4 +40,14 @@ CASES = [
   'edits': [{'file': 'src/geophires_x/Parameter.py', 'old': "    return (candidate_value < float(param.Min)) or (candidate_value > float(param.Max))", 'new': "    return (candidate_value <= float(param.Min)) or (candidate_value > float(param.Max))"}]},
  {'id': 'C20-x2-json-path-helper-other-directory', 'property': 'C20', 'kind': 'mutant', 'expect_rule': 'N3', 'patch': 'refactors/C08-r2/patch.diff',
   'edits': [{'file': 'src/geophires_x/GEOPHIRESv3.py', 'old': "        return output_arg.replace(output_arg_path.name, f'{output_arg_path.stem}.json')", 'new': "        return Path(original_cwd, f'{output_arg_path.name}.json')"}]},
+ {'id': 'C02-x1-closure-integrates-wrong-series', 'property': 'C02', 'kind': 'mutant', 'expect_rule': 'F5', 'patch': 'refactors/C02-u3/patch.diff',
+  'edits': [{'file': 'src/geophires_x/SurfacePlantHeatPump.py', 'old': "        self.HeatkWhProduced.value = _annual_kwh(self.HeatProduced.value)", 'new': "        self.HeatkWhProduced.value = _annual_kwh(self.HeatExtracted.value)"}]},
+ {'id': 'C01-x2-shared-helper-drops-construction-inflation', 'property': 'C01', 'kind': 'mutant', 'expect_rule': 'R4', 'patch': 'refactors/C01-v2/patch.diff',
+  'edits': [{'file': E, 'old': "    NPVcap = np.sum((1 + econ.inflrateconstruction.value) * capital_cost * CRF * discountvector)", 'new': "    NPVcap = np.sum(capital_cost * CRF * discountvector)"}]},
+ {'id': 'C07-x2-registering-wrapper-forgets-to-register', 'property': 'C07', 'kind': 'mutant', 'expect_rule': 'V3', 'patch': 'refactors/C16-u3/patch.diff',
+  'edits': [{'file': E, 'old': "            self.ParameterDict[declared_parameter.Name] = declared_parameter\n", 'new': "            pass\n"}]},
+ {'id': 'C08-x3-module-level-restorer-forgets-cwd', 'property': 'C08', 'kind': 'mutant', 'expect_rule': 'P1', 'patch': 'refactors/C08-v1/patch.diff',
+  'edits': [{'file': MM, 'old': "        os.chdir(self._cwd)\n", 'new': ""}]},
+ {'id': 'C15-x2-test-then-store-floor-inverted', 'property': 'C15', 'kind': 'mutant', 'expect_rule': 'Z3', 'patch': 'refactors/C15-v1/patch.diff',
+  'edits': [{'file': WB, 'old': "        if depleted_pressure_kPa < hydrostatic_kPa:", 'new': "        if depleted_pressure_kPa > hydrostatic_kPa:"}]},
 ]
